@@ -212,7 +212,7 @@ let judge_main (script : string) (implout : string) =
        | ln :: tab :: rest when !i + 1 < nl ->
          let rl = lines.(!i + 1) in
          let atoms = List.filter (fun s -> s <> "") (String.split_on_char ' ' rl) in
-         let is_bytes x = String.length x > 6 && String.sub x 0 6 = "bytes=" in
+         let is_bytes x = (String.length x > 6 && String.sub x 0 6 = "bytes=") || (String.length x > 9 && String.sub x 0 9 = "consumed=") in
          let r = (match atoms with "R" :: xs -> List.map parse_atom (List.filter (fun x -> not (is_bytes x)) xs) | _ -> []) in
          (* collect the dump that follows *)
          let posts : obs option array = Array.make 4 None in
@@ -396,6 +396,22 @@ let () =
         w := w';
         Buffer.add_string buf (Printf.sprintf "#%d %s\nR" !lineno (String.concat " " toks));
         List.iter (fun r -> Buffer.add_char buf ' '; Buffer.add_string buf (rv_str r)) out;
+        (* C16: for instrumented (non-trivial) element types the harness reports whether the key and
+           value arguments were moved from; in the model they are consumed iff the call inserted
+           (insert_or_assign on a duplicate hands its value to the documented assignment) *)
+        (if not (!cfg).simple then
+           let unmodelled = (match out with [RExn EUnmodelled] -> true | _ -> false) in
+           let first_bool = (match out with RBool b :: _ -> Some b | _ -> None) in
+           let second_bool = (match out with _ :: RBool b :: _ -> Some b | _ -> None) in
+           let c2 kb vb = Buffer.add_string buf (Printf.sprintf " consumed=%d%d" (if kb then 1 else 0) (if vb then 1 else 0)) in
+           match rest with
+           | ("insert" | "upsert" | "uprase") :: _ when not unmodelled ->
+             (match first_bool with Some b -> c2 b b | None -> c2 false false)
+           | "ioa" :: _ when not unmodelled ->
+             (match first_bool with Some b -> c2 b true | None -> c2 false false)
+           | "l.insert" :: _ when not unmodelled ->
+             (match second_bool with Some b -> c2 b b | None -> c2 false false)
+           | _ -> ());
         (match bytes with Some bs -> Buffer.add_string buf (" bytes=" ^ hex_of_bytes bs) | None -> ());
         Buffer.add_char buf '\n';
         dump_world !cfg buf !w.cw;
